@@ -364,6 +364,37 @@ def run_chunk(exe, lines, tag, stall=45):
         skip += len(announced)
     return res, crashes, msgs
 
+BIGFIT_CORPUS = [  # (seed, n0, n1, n2, kind, smoothing, monodim): heap-use-after-free in recompute_factor before fix 10a35f6
+    (1, 8, 7, 6, 1, "1e-2", 2),
+]
+def run_bigfits(out, tier, seed):
+    """valid fits of a few hundred coefficients (plain and monotone, oscillating / decreasing / sparse data) under
+    ASan+UBSan: the lattice above uses tiny fits, which never make the NNLS solver grow a column of its factor"""
+    exe = _common.build_harness("C13_bigfit", ["C13_bigfit.cpp"], flavour="checked", fitter=True, repo_srcs=_common.CORE_CPP, tag="C13_bigfit")
+    rng = Rng(seed).fork("C13-bigfit")
+    cfgs = list(BIGFIT_CORPUS)
+    for _ in range(10 if tier == "quick" else 60):
+        cfgs.append((rng.rint(1, 10 ** 6), rng.rint(5, 9), rng.rint(4, 8), rng.rint(3, 7), rng.rint(0, 3), rng.choice(["0", "1e-4", "1e-2", "1"]), rng.choice([-1, 0, 1, 2, 2])))
+    env = dict(os.environ); env.update({"ASAN_OPTIONS": "detect_leaks=0", "OMP_NUM_THREADS": "2"})
+    from concurrent.futures import ThreadPoolExecutor
+    def one(cfg):
+        try:
+            p = subprocess.run([exe] + [str(a) for a in cfg], stdout=subprocess.PIPE, stderr=subprocess.PIPE, text=True, timeout=600, env=env)
+            return cfg, p.returncode, p.stdout, p.stderr
+        except subprocess.TimeoutExpired:
+            return cfg, -9, "", "timeout"
+    bad = 0
+    with ThreadPoolExecutor(max_workers=8) as ex:
+        for cfg, rc, so, se in ex.map(one, cfgs):
+            if rc == 0 and "ok ncoef" in so:
+                continue
+            bad += 1
+            m = re.search(r"SUMMARY: \w+: ([\w-]+) \S*?([\w.]+):(\d+) in (\w+)", se)
+            sig = "C13:cpp:sanitizer:%s@%s" % (m.group(1), m.group(4)) if m else ("C13:bigfit:hang" if rc == -9 else "C13:bigfit:failed")
+            out.violation(sig, "a VALID fit (seed n0 n1 n2 kind smoothing monodim = %s) did not complete cleanly in the sanitizer build: %s" % (" ".join(map(str, cfg)), (se.strip().split("\n") or [""])[0][:200]),
+                          {"bigfit": list(cfg), "stderr": se[-3000:], "replay_cmd": "harness C13_bigfit " + " ".join(map(str, cfg))})
+    return {"bigfits_run": len(cfgs), "bigfits_failed": bad}
+
 def run_impl(exe, cases):
     lines = [shape_line(c["id"], c["entry"], c["shape"]) for c in cases]
     nchunk = max(1, min(NCPU, len(lines) // 8 or 1))
@@ -575,6 +606,7 @@ def run(info, out):
     order = {"oracle": 0, "corr": 1}
     findings.sort(key=lambda f: (0 if ":sanitizer:" in f[0] else 1, order.get(f[2], 2)))
     sigs = report(out, findings)
+    bigfit_cov = run_bigfits(out, tier, seed)
     if model is None:
         out.violation("C13:model-unavailable", "the model could not be built/run: " + (merr or ""), {"no_failing_input_found": not findings, "broken": "model build", "detail": merr})
     if (not info["proof_ok"]) and not findings:
